@@ -40,7 +40,7 @@ def corpus():
 
 
 def generate(rng, tier):
-    n = 2000 if tier == 'quick' else 60000
+    n = 2000 if tier == 'quick' else 20000
     # every public way to answer with an event stream: DataStream::new (String and &'static str), DataStream::from(stream), Response::with_stream(stream)
     return [{'case': {'sched': sched_gen(rng), 'entry': rng.choice(['new', 'new', 'from', 'with_stream', 'str'])}} for _ in range(n)]
 
@@ -90,7 +90,7 @@ def norm(m): return m.replace('\r\n', '\n').replace('\r', '\n')
 def spec_check(case, out):
     if 'panic' in out: return 'panic: ' + out['panic'][:120]
     if case.get('timed'):
-        # "at any pace", in real time: the real session loop over loopback TCP with OHKAMI_KEEPALIVE_TIMEOUT=1 and 0.7 s between the three messages
+        # "at any pace", in real time: the real session loop over loopback TCP with OHKAMI_KEEPALIVE_TIMEOUT=2 and 1.5 s between the three messages
         st = (out.get('timed') or {}).get('stream')
         if st is None: return f'the timed scenario did not run: {str(out)[:120]}'
         return spec_check({'sched': [{'pushes': [hx('a'), hx('b'), hx('c')], 'ready': True}]}, {'wire': st['all']})
